@@ -66,6 +66,9 @@ def wire_describe(ev):
     if kind == "enc":
         return "encoder output is not a well-formed RFC 8010 reading of the message (case %s, term=%s rest=%s)" % (
             ev.get("case"), ev.get("term"), ev.get("rest"))
+    if kind == "serde":
+        return "serde round trip of a %s did not reproduce it (case %s): ok=%s error=%s back=%s" % (
+            ev.get("what"), ev.get("case"), ev.get("ok"), ev.get("error"), json.dumps(trunc_json(ev.get("back"), 200))[:400])
     if kind == "parse":
         return "parser result differs from the RFC reading of the wire message (case %s): outcome %s" % (
             ev.get("case"), json.dumps(trunc_json(ev.get("out"), 300))[:600])
@@ -582,3 +585,35 @@ def check_C09(chk):
     chk.extra["distinct_orders_seen"] = run.get("distinct_orders_seen")
     validate_with_retries(chk, "trace_ops", "Trace_Ops.tla", os.path.join(out, "trace.ndjson"),
                           os.path.join(out, "trace.side.ndjson"), describe=ops_describe)
+
+
+def check_C17(chk):
+    q = chk.tier == "quick"
+    chk.rule = ("cases = status class (9) x printer-state (7 forms) x printer-state-reasons (absent, single keyword, sets of "
+                "1..2 (3 thorough) keywords over blocking / harmless / none / unlisted vocabularies at every position, "
+                "non-keyword syntax) x 5 group layouts, enumerated by TLC; each built through the API and through the real "
+                "parser with the 10 blocking keywords rotated; plus the status gate over all 65536 codes; distinct = "
+                "responses evaluated; judged by Trace_Ready against IppReady.Allowed")
+    chk.assumptions = ["0x0003-0x00ff may be either, consistent with is_success()", "suffix forms such as media-jam-error are "
+                       "outside the listed keywords (any answer accepted)", "TLC"]
+    build_harness()
+    wd = workdir("C17")
+    cases = os.path.join(wd, "cases.ndjson")
+    r = mc("C17", "mc_ready", "MC_Ready.tla", dict(MaxReasons=2 if q else 3), ["OperationalAllowed", "Gen"], case_file=cases)
+    chk.add_mc(r, "MC_Ready MaxReasons=%d" % (2 if q else 3))
+    out = os.path.join(wd, "run")
+    harness("vh", ["ready", "--out", out, "--seed", chk.seed, "--cases", cases])
+    run_sample(chk, out)
+    validate_with_retries(chk, "trace_ready", "Trace_Ready.tla", os.path.join(out, "trace.ndjson"),
+                          os.path.join(out, "trace.side.ndjson"),
+                          describe=lambda ev: "is_printer_ready answered %s for status %s and printer attributes %s" % (
+                              ev.get("res"), ev.get("resp", {}).get("code"), json.dumps(trunc_json(ev.get("resp", {}).get("groups"), 120))[:500]))
+
+
+def check_C20(chk):
+    chk.rule = ("cases as C01 (messages meant by MC_Wire's streams whose first group is the operation group, all 22 kinds "
+                "incl. raw-octet values and nested collections, boundary contents); each message, its IppAttributes and "
+                "every attribute value is serialised with serde_json and deserialised; distinct = distinct serialised "
+                "objects; judged by Trace_Wire.SerdeOK (exact identity of header/groups/values, payload empty afterwards)")
+    chk.assumptions = ["JSON as the carrier format", "TLC", "harness projection"]
+    wire_pipeline(chk, "C20", "GenOp", 1, 2)
